@@ -32,18 +32,12 @@ impl<V: IntegerVariable> TransformableVariable for V {
     fn scaled(&self, scale: i32) -> (r: ScaledView<Self>) { unimplemented!() }
 }
 
-// negation of a predicate: complement semantics (proved in unit `predicate`)
-impl vstd::std_specs::ops::NotSpecImpl for Predicate {
-    open spec fn obeys_not_spec() -> bool { false }
-    open spec fn not_req(self) -> bool { true }
-    open spec fn not_spec(self) -> Predicate { self }
-}
+// negation of a predicate: contract proved in unit `predicate` (same text), assumed here
+//@@SPEC contracts/predicate_not.rs@@
 impl std::ops::Not for Predicate {
     type Output = Predicate;
     #[verifier::external_body]
-    fn not(self) -> (r: Predicate)
-        ensures forall|a: Asg| #[trigger] pred_holds(r, a) <==> !pred_holds(self, a)
-    { unimplemented!() }
+    fn not(self) -> (r: Predicate) { unimplemented!() }
 }
 
 #[derive(Clone, Copy)]
@@ -77,6 +71,13 @@ pub proof fn axiom_value_is_i32<V: IntegerVariable>(s: &ConstraintSatisfactionSo
 #[verifier::external_body]
 pub proof fn axiom_solution_values_are_i32<V: IntegerVariable>(s: &ConstraintSatisfactionSolver, v: &V)
     ensures forall|a: Asg| #![trigger (s.model@)(a)] (s.model@)(a) ==> i32::MIN <= v.eval(a) <= i32::MAX
+{ }
+
+// values held by the engine in a solution are i32 (by type)
+#[verifier::external_body]
+pub proof fn axiom_solution_asg_is_i32(s: &ConstraintSatisfactionSolver)
+    requires s.state.phase@ is HasSolution
+    ensures forall|i: int| i32::MIN <= #[trigger] (s.cur@)(i) <= i32::MAX
 { }
 
 pub struct LinearSatUnsat<Var, Callback> {
